@@ -29,7 +29,7 @@ var verifC16Positions = [6]int{parser.ABSOLUTE, parser.RELATIVE, parser.FIRST, p
 // One inductive step of Cursor.Fetch from an arbitrary valid open state (pointer in [-1, n]).
 // Oracle: the addressed position in mathematical integers.
 func VerifC16FetchStep() {
-	n := verifChoice("n", 4) // table length 0..3 (bound)
+	n := verifChoice("n", verifBound(4, 6)) // table length 0..3 (thorough 0..5)
 	idx := verifInt("index")
 	verifAssume(idx >= -1)
 	verifAssume(idx <= n)
@@ -91,7 +91,7 @@ func VerifC16FetchStep() {
 
 // Closed / unfetched cursor: every operation reports the documented state, never stale data.
 func VerifC16StateOps() {
-	n := verifChoice("n", 3)
+	n := verifChoice("n", verifBound(3, 5))
 	view := verifC16View(n)
 	name := parser.Identifier{Literal: "cur"}
 	c := &Cursor{Name: "cur", mtx: &sync.Mutex{}}
